@@ -196,8 +196,9 @@ def structural_candidates(case):
                     c[key][i][3] = _set_at(c[key][i][3], path, copy.deepcopy(sub))
                     yield c
         # 5. smaller literals
+        input_names = {x.get("name") for x in case.get("inputs") or []}
         for i, s in enumerate(stmts):
-            if s[0] != "decl":
+            if s[0] != "decl" or s[2] in input_names:
                 continue
             for path, node in list(_expr_positions(s[3])):
                 if node[0] == "lit" and node[1] not in (0, 1):
